@@ -504,6 +504,73 @@ def h6_fill_idempotent_accepted(chk, rng, tier):
             chk.harness_error("C14 H6b did not reproduce")
 
 
+def h6_fill_idempotent_zero_component(chk, rng, tier):
+    """An already filled table in which a component the symmetry leaves free happens to vanish at every volume (e.g. monoclinic c46 = 0):
+    the first fill omits the column (C09's drop rule); filling the result again must still change nothing."""
+    import pandas
+    import cij.util.fill as F
+    system = "monoclinic"
+    name = "H6c fill(fill(table)) == fill(table) [%s, a symmetry-allowed component identically zero in the supplied table]" % system
+    t0 = time.time()
+    ok = True
+    alone = None
+    try:
+        rows = FC.capture_relations(F, system)
+        basis = FC.invariant_basis(rows)
+        nonzero = [k for k in FC.KEYS if any(b[k] for b in basis)]
+        alone = next((i for i, b in enumerate(basis) if sum(1 for k in FC.KEYS if b[k]) == 1 and int([k for k in FC.KEYS if b[k]][0][1]) >= 4
+                      and [k for k in FC.KEYS if b[k]][0][1] != [k for k in FC.KEYS if b[k]][0][2]), None)
+        if alone is None:
+            chk.inconclusive(name, "no free off-diagonal shear component standing alone in the invariant basis")
+            return
+        zkey = [k for k in FC.KEYS if basis[alone][k]][0]
+        ctx = new_context()
+        t_rows = FC.symbolic_invariant(ctx, [b for i, b in enumerate(basis) if i != alone], 2)
+        df = FC.make_table(t_rows, nonzero)          # the column of zkey is there and holds exact zeros
+        ex = X.Explorer(max_paths=16, name="C14:H6c")
+        ex.prefer = FC.no_drop_cut
+        paths, proxy, ex = FC.run_fill(F, df, system, explorer=ex)
+        chk.witness("H6c: the table with %s = 0 is accepted by the first fill" % zkey, "sat" if paths and paths[0].exception is None else "unsat")
+        once = paths[0].result
+        ex2 = X.Explorer(max_paths=16, name="C14:H6c2")
+        ex2.prefer = FC.no_drop_cut
+        paths2, _, _ = FC.run_fill(F, once.copy(), system, explorer=ex2)
+        ok = paths2[0].exception is None and sorted(once.columns) == sorted(paths2[0].result.columns)
+        if ok:
+            for c in once.columns:
+                ok = ok and arrays_equal(once[c].to_numpy(dtype=object), paths2[0].result[c].to_numpy(dtype=object), "C14:H6c")
+    except (SymError, X.PathBudgetExceeded) as e:
+        chk.inconclusive(name, str(e))
+        return
+    chk.obligation(name, "unsat" if ok else "sat", seconds=round(time.time() - t0, 2), kind="idempotence")
+    if not ok:
+        coeffs = [[rng.uniform(50, 300) for _ in basis] for _ in range(2)]
+        t = {"V": [100.0, 95.0]}
+        for k in nonzero:
+            t[k] = [sum(c * float(b[k]) for i, (c, b) in enumerate(zip(coeffs[r], basis)) if i != alone) for r in range(2)]
+        try:
+            with warnings.catch_warnings():
+                warnings.simplefilter("ignore")
+                a = F.fill_cij(pandas.DataFrame(t), system)
+        except BaseException as e:
+            chk.harness_error("C14 H6c: the first fill raises %s" % type(e).__name__)
+            return
+        try:
+            with warnings.catch_warnings():
+                warnings.simplefilter("ignore")
+                b = F.fill_cij(a.copy(), system)
+            same = sorted(a.columns) == sorted(b.columns) and all(numpy.abs(a[c].to_numpy(dtype=float) - b[c].to_numpy(dtype=float)).max() <= 1e-9 * 300 for c in a.columns)
+            if same:
+                chk.harness_error("C14 H6c did not reproduce")
+            else:
+                chk.violation("idempotence:zero-free-component", "filling an already filled %s table whose free component %s is zero at every volume changes it" % (system, zkey), dict(table=t))
+        except BaseException as e:
+            if isinstance(e, (KeyboardInterrupt, SystemExit)):
+                raise
+            chk.violation("idempotence:zero-free-component", "fill_cij refuses its own output: a %s table with the symmetry-allowed component %s = 0 at every volume is "
+                          "accepted and filled (the zero column is omitted), filling the result again raises %s: %s" % (system, zkey, type(e).__name__, str(e)[:80]), dict(table=t))
+
+
 def main():
     tier = os.environ.get("VERIF_TIER", "quick")
     if len(sys.argv) > 1:
@@ -519,6 +586,7 @@ def main():
     C7.history_obligation(chk, cc, ["a", "b"], rng)           # H5
     h6_fill_idempotent(chk, rng, tier)
     h6_fill_idempotent_accepted(chk, rng, tier)
+    h6_fill_idempotent_zero_component(chk, rng, tier)
     chk.witness("histories executed", "sat" if len(chk.obligations) >= 5 else "unsat")
     chk.bound(histories="2-3 reads per quantity, 3 access orders, 3 write_output calls, 2 calculators, fill applied twice",
               shapes="nq=2, np=3, nT=2, nV=1-2; 10 stiffness components; 2-7 crystal systems")
